@@ -189,6 +189,18 @@ func RunWorker(e Engine) int {
 		n = v
 	}
 	maxViol := envInt("VERIF_MAX_VIOLATIONS", 3)
+	// Oracles of listed known findings (passed by the driver): the first
+	// occurrence per worker is recorded so the driver can print its
+	// KNOWN-FINDING line; they never count toward the violation cap and are
+	// not shrunk, so they cannot crowd out anything else.
+	knownOracles := map[string]bool{}
+	for _, o := range strings.Split(os.Getenv("VERIF_KNOWN_ORACLES"), ",") {
+		if o != "" {
+			knownOracles[o] = true
+		}
+	}
+	knownSeen := map[string]bool{}
+	counted := 0
 	caseTimeout := time.Duration(envInt("VERIF_CASE_TIMEOUT_S", 120)) * time.Second
 
 	st := NewStats()
@@ -283,7 +295,18 @@ func RunWorker(e Engine) int {
 		if len(st.Samples) < 3 && idx%7 == worker%7 {
 			st.Samples = append(st.Samples, env.Body)
 		}
+		if v != nil && knownOracles[v.Oracle] {
+			st.Inc("known_finding_" + v.Oracle + "_cases")
+			if !knownSeen[v.Oracle] {
+				knownSeen[v.Oracle] = true
+				env.Expect = v
+				p := writeReplay(env)
+				res.Violations = append(res.Violations, ViolationRecord{Violation: *v, Case: idx, Replay: p})
+			}
+			v = nil
+		}
 		if v != nil {
+			counted++
 			fmt.Printf("FOUND engine=%s case=%d oracle=%s detail=%s\n", e.Name(), idx, v.Oracle, v.Detail)
 			setShrinkBest(&Envelope{Property: e.Property(), Engine: e.Name(), Seed: seed, Case: idx, Body: marshalBody(c), Expect: v})
 			c2, v2, steps := shrinkCase(e, c, v)
@@ -291,7 +314,7 @@ func RunWorker(e Engine) int {
 			env2 := &Envelope{Property: e.Property(), Engine: e.Name(), Seed: seed, Case: idx, Body: marshalBody(c2), Expect: v2}
 			p := writeReplay(env2)
 			res.Violations = append(res.Violations, ViolationRecord{Violation: *v2, Case: idx, Replay: p, Shrunk: steps})
-			if len(res.Violations) >= maxViol {
+			if counted >= maxViol {
 				break
 			}
 		}
